@@ -27,6 +27,33 @@ CHECKS = {
   "C05": ("Hypothesis (incl. recursive expression-tree strategy) vs an independent rational-function arithmetic (cross-multiplication equality) and diffeq_ref outputs; metamorphic identities between the library's own two sides",
           "Generated filter pairs/triples with integer coefficients, scalars, exponents, delays and expression trees over + - * / ** neg and substitution; each composite filter is compared with an independent rational-function model (by cross-multiplication) and its output with the difference equation of the expected function, as well as with the composition of the parts' outputs; Cascade/Parallel outputs and polynomials; ==/!=/hash over construction routes and numeric spellings. Sampled, depth <= 3.",
           "Integer coefficients (exact printing); divisions by scalars only for powers of two; negative powers of single-term filters excluded where Python's float power leaves exact arithmetic.", "3/C05"),
+  "C10": ("Hypothesis vs exact normal-equation residuals, defining sums and direct convolution energy (all equalities in Q); singular-minor oracle for ParCorError",
+          "Autocorrelation vectors generated from reflection coefficients (oracle-side inverse Levinson), from data and freely; levinson_durbin / lpc.kautocor / lpc.kcovar outputs must make every Toeplitz or covariance residual exactly zero, report error == sum a[j] r[j] == directly convolved residual energy, and beat generated monic competitors; acorr / lag_matrix / toeplitz equal their defining sums. Sampled.",
+          "Samples are Q so the recursion is exact; numpy strategies (nautocor, covar, autocor) are not installed here and are out of scope; when kcovar must raise is not claimed by the property.", "3/C10"),
+  "C11": ("Hypothesis + enumerated first-order grid vs oracle step-up recursion (round trip) and exact pole classification by construction",
+          "Reflection vectors (any rational magnitude, zeros inside, +-1 included) are stepped up by the oracle and must come back from parcor exactly, with ParCorError exactly when some |k| == 1; parcor(levinson_durbin(r)) returns the generating k and error == r0*prod(1-k^2); parcor_stable is compared with 'every root strictly inside', decided in rationals for denominators built from chosen real / conjugate-pair roots inside, on and outside the circle under any non-zero gain. Sampled + 234 enumerated first-order cases.",
+          "Roots are rational / Gaussian-rational so the circle test is exact; float coefficients only in the first-order grid.", "3/C11"),
+  "C19": ("Hypothesis vs exact closed forms and reference recursions (modcount_ref, resample_ref with its own Lagrange), tolerance only for sin",
+          "line/fades/ones/zeros/impulse/noise/adsr/attack lengths and shapes; modulo_counter against the naive recursion on all 8 number-vs-stream branches and the batched fast path (label floors on fast path and wraps); TableLookup interpolation and oscillator; sinusoid; karplus_strong vs the direct comb recursion; resample vs an independent Lagrange window model incl. where the output must end. Sampled.",
+          "Q arguments make the comparisons exact; float frequencies snapped away from denormals; TableLookup index >= 0 (the oscillator's range).", "3/C19"),
+  "C20": ("Hypothesis vs defining formulas evaluated in exact arithmetic (moving sums, running sums, one-pole recursion, zcross_ref state machine, unwrap predicates)",
+          "All maverage strategies against c*sum(last size samples) with c the double 1/size taken exactly, all accumulate strategies against running sums, amdf, envelopes (pole recomputed by the oracle), clip idempotence/bounds/identity, zcross against a state machine written from the statement with samples placed on the thresholds, unwrap's three predicates. Sampled.",
+          "Samples are Q; 1e-12 tolerance only where the code's own float constant or sqrt enters; unwrap([]) is outside the property.", "3/C20"),
+  "C01": ("Hypothesis (operator matrix, recursive expression trees, broadcast functions) + enumerated method x operand-kind grid vs an independent list interpreter; bounded counting sources for laziness",
+          "All 35 dunders are called directly on 9 Stream kinds against 8 operand kinds and 8 element families; expression trees up to depth 3/4 through operator syntax (reflected dispatch); 47 broadcast functions over 17 container kinds. Oracle = zip-to-shortest list interpreter using the same builtin operator on the same elements (value, type and float bits; same exception type at the same index), container kind preserved, zero source pulls before iteration. Sampled + enumerated grid.",
+          "Element-level arithmetic is Python's own (used by the oracle too); endless operands are pull-bounded sources so an eager stage fails with OverRead instead of hanging; post-end next() behaviour is not claimed.", "3/C01"),
+  "C03": ("Hypothesis histories (plain-data step lists interpreted against real objects and a prefix+cycle list model) + enumerated count grid; model-tracked peeks after every step",
+          "Histories over a pool of finite, periodic and pull-bounded endless streams, tee outputs and hubs: take/peek/skip/limit with every count class (None, negative, 0, within, equal, beyond, floats incl. halves, +-inf, nan), append, map, filter, copy, tee, thub, iteration; every return value and exception is compared with the model and the next items of every live object are checked, so interleaved consumption of copies must stay independent; exactly n hub uses then IndexError. Sampled + 3306 enumerated (source, length, method, count) combinations.",
+          "skip/limit with exact-half floats or inf are excluded (rounding unspecified); model written from the property text.", "3/C03"),
+  "C12": ("Hypothesis vs independent fsum evaluation with an a-priori rounding-error bound; differential time-domain links (impulse response DFT, complex exponential through FIR); dft vs its defining sum and linearity",
+          "freq_response of generated filters (FIR, pole sections inside/outside, integer denominators, exact root at z=1 -> nan) against B/A evaluated independently within a proved bound; per-element application over 10 container kinds with bit-equality to the scalar call; cascade = product, parallel = sum (0-3 members, nesting); FIR impulse response DFT == H(w); e^{jwn} through FIR scaled by H(w); dft == defining sum, linear, exact DC bin. Sampled.",
+          "Tolerance epsilon = 64(order+2)2^-53(...) as derived in DESIGN; denominators bounded away from zero at the probed frequency (2-6% domain rejects).", "3/C12"),
+  "C13": ("Hypothesis + enumerated forced cut-offs vs analytic contracts evaluated independently from the returned coefficients (gain at DC/Nyquist/cut-off, monotonicity grid, pole location, exact comb recursion in Q)",
+          "lowpass/highpass x 4 strategies: unit gain at the edge, half power at cut-off and monotone magnitude for pole/z, pole strictly inside; resonators: z^-2 coefficient e^-bw, unit gain at the derived resonant frequency where it exists; comb fb/ff/tau: exact recursion on Q input; gammatone: cascade, stable sections, unit gain at centre; stream-valued parameters equal the constant design sample by sample. Sampled + 23 forced cut-offs x 8 strategies.",
+          "Tolerances 1e-9 / 1e-6 / 1e-12 as stated in DESIGN (head-room >= 1e3 over probed error); gammatone gain tolerance widened by the coefficients' condition number where double precision cannot express 1e-6.", "3/C13"),
+  "C16": ("Hypothesis histories + enumerated 2/3-event grid vs reference model (mixer_ref: exact cumulative start times, nearest-sample rule, late additions); closed-form drift clause; ControlStream read/assign interleavings",
+          "add/next/take histories with integer, rational (exact .5 ties) and dyadic-float deltas, empty events, late additions, keep on/off and nine zero values (incl. a mutable vector type) are compared sample by sample with the model; 30-400 equal fractional deltas must start at nearest(d0+i*d) computed without accumulation; a negative delta raises ValueError and changes nothing; ControlStream yields the last assigned value at every read, alone and inside expressions. Sampled + 2646 enumerated mixes.",
+          "Deltas as Q make 'count -= delta' exact; an exact half-sample tie starts at the earlier sample (the anchored 'count >= delta').", "3/C16"),
 }
 NOT_BUILT = "check not built yet in this session (planned in DESIGN.md section 3); no claim is made until it is"
 
